@@ -33,7 +33,7 @@ TWIN = "aＡ̀"
 def instances(tier, seed):
     import itertools
     out = []
-    T = 150 if tier == "quick" else 900
+    T = 60 if tier == "quick" else 600      # instances finish in seconds; a short budget bounds the cost of a change that makes the real code loop
     maxrun = 2 if tier == "quick" else 3
     maxtot = 4 if tier == "quick" else 6
     cmax = 4 if tier == "quick" else 6
@@ -50,6 +50,12 @@ def instances(tier, seed):
                     out.append({"name": "split-K%d-%s-%s%s" % (K, "".join(map(str, lt)), layout, "" if part is None else "-p%d" % part),
                                 "fn": "split", "timeout": T, "cost": sum(lt) ** 2,
                                 "params": {"K": K, "lens": list(lt), "layout": layout, "part": part, "cmax": cmax}})
+    # long runs (a run that starts mid-line and wraps more than once): all narrow, or one double-width character at a
+    # position chosen by the solver
+    for lt in ((1, 5), (1, 6), (2, 5), (1, 7), (3, 4), (1, 1, 5), (2, 6)):
+        for wide in (False, True):
+            out.append({"name": "long-%s-%s" % ("".join(map(str, lt)), "wide" if wide else "narrow"), "fn": "split_long", "timeout": T, "cost": 6,
+                        "params": {"K": len(lt), "lens": list(lt), "layout": "distinct", "wide": wide, "cmax": 4 if tier == "quick" else 5}})
     return out
 
 
@@ -143,9 +149,57 @@ def split(k0: int, k1: int, k2: int, k3: int, k4: int, k5: int, columns: int) ->
     return verdict(ok, len(lines) >= 2 and 2 in ws)
 
 
+LONGREP = "abcdefghijkl"
+
+
+def _long_texts(params, wpos):
+    ts = []
+    pos = 0
+    for ln in params["lens"]:
+        t = ""
+        for _ in range(ln):
+            t += "\uff25" if (params["wide"] and pos == wpos) else LONGREP[pos]
+            pos += 1
+        ts.append(t)
+    return ts
+
+
+def split_long(wpos: int, columns: int) -> bool:
+    """
+    pre: 0 <= wpos < sum(P["lens"]) and 2 <= columns <= P["cmax"]
+    pre: P["wide"] or wpos == 0
+    post: _
+    """
+    from crosshair.core import realize
+    ts = _long_texts(P, int(realize(wpos)))
+    f = _build(ts, P)
+    cs = [(c, disp(ch.atts)) for ch in f.chunks for c in ch.s]
+    ws = [widths.wcwidth(c) for c, _ in cs]
+    lines = list(f.width_aware_splitlines(columns))
+    lc = [[(c, disp(ch.atts)) for ch in ln.chunks for c in ch.s] for ln in lines]
+    lw = [sum(widths.wcwidth(c) for c, _ in l) for l in lc]
+    return verdict(judge(lc, lw, cs, ws, columns), len(lines) >= 3)
+
+
 # ---------------------------------------------------------------- concrete twin (plain CPython, real cwcwidth)
 def concrete(fn, params, args):
     import cwcwidth
+    if fn == "split_long":
+        wpos, columns = args
+        ts = _long_texts(params, wpos)
+        f = _build(ts, params)
+        cs = cells(f)
+        ws = [cwcwidth.wcwidth(c) for c, _ in cs]
+        call = "list(%r .width_aware_splitlines(%d))" % (f, columns)
+        try:
+            lines = list(f.width_aware_splitlines(columns))
+        except Exception as ex:
+            return {"ok": False, "observed": "raised %r" % (ex,), "expected": "lines", "call": call}
+        lc = [cells(l) for l in lines]
+        lw = [sum(cwcwidth.wcwidth(c) for c, _ in l) for l in lc]
+        want, _ = expected_flat(cs, ws, columns)
+        return {"ok": judge(lc, lw, cs, ws, columns), "observed": "%r widths %r" % ([fmt_cells(l) for l in lc], lw),
+                "expected": "lines of width %d (last <= %d) concatenating to %s" % (columns, columns, fmt_cells(want)), "call": call}
     ks = list(args[:6])
     columns = args[6]
     ts = _texts_from(ks, params)
